@@ -1185,7 +1185,213 @@ def c11_plscf_findmin(inp):
             "detail": "; ".join(f"{x['claim']}: {x['detail']}" for x in fl)[:1500] if fl else f"pLSCF find_min agrees with the property on {ntr} crafted tables"}
 
 
-DRIVERS = {"c11_plscf_findmin": c11_plscf_findmin, "c11_mpe": c11_mpe, "c06_fdd": c06_fdd, "c20_plots": c20_plots, "c18_indicators": c18_indicators, "c13_sdest": c13_sdest, "c04_preger": c04_preger, "c03_split": c03_split, "c14_sequences": c14_sequences, "c16_dialog": c16_dialog, "c02_merge": c02_merge, "c09_run": c09_run, "c10_run": c10_run, "c10_fn": c10_fn}
+# ----------------------------------------------------------------------------------
+# C15: gating / isolation / determinism / persistence through a real SingleSetup; PoSER validation
+# ----------------------------------------------------------------------------------
+
+def _c15_algs():
+    from pyoma2.algorithms import FDD, SSIcov, pLSCF
+    return {"FDD": lambda nm: FDD(name=nm, nxseg=256, method_SD="per"),
+            "SSIcov": lambda nm: SSIcov(name=nm, br=6, ordmax=10, calc_unc=False),
+            "pLSCF": lambda nm: pLSCF(name=nm, ordmax=6, nxseg=256)}
+
+
+def _c15_snapshot(alg):
+    import copy
+    rp = alg.run_params.model_dump() if alg.run_params is not None else None
+    return {"rp": copy.deepcopy(rp), "result_id": id(alg.result), "result": None if alg.result is None else copy.deepcopy(alg.result.model_dump())}
+
+
+def _c15_equal(a, b):
+    if isinstance(a, dict) and isinstance(b, dict):
+        return a.keys() == b.keys() and all(_c15_equal(a[k], b[k]) for k in a)
+    if isinstance(a, (list, tuple)) and isinstance(b, (list, tuple)):
+        return len(a) == len(b) and all(_c15_equal(x, y) for x, y in zip(a, b))
+    if isinstance(a, np.ndarray) or isinstance(b, np.ndarray):
+        try:
+            return np.shape(a) == np.shape(b) and bool(np.array_equal(np.asarray(a), np.asarray(b), equal_nan=True))
+        except Exception:
+            return False
+    try:
+        return bool(a == b) or (a != a and b != b)
+    except Exception:
+        return a is b
+
+
+def c15_gating(inp):
+    """random sequences (length <= 5) of add / run_by_name / run_all / mpe over FDD, SSIcov, pLSCF on a real SingleSetup"""
+    import os
+    import tempfile
+
+    from pyoma2.functions.gen import load_from_file, save_to_file
+    from pyoma2.setup import SingleSetup
+    rng = np.random.RandomState(int(inp.get("seed", 15)))
+    ntr = int(inp.get("trials", 12))
+    mk = _c15_algs()
+    y, fs = rng_data(3, n=1500, nch=3)
+    alone = {}
+
+    def alone_result(kind):
+        if kind not in alone:
+            st = SingleSetup(y.copy(), fs)
+            a = mk[kind]("solo")
+            st.add_algorithms(a)
+            st.run_by_name("solo")
+            alone[kind] = a.result.model_dump()
+        return alone[kind]
+    mpe_args = {"FDD": dict(sel_freq=[3.1, 7.7], DF=0.5), "SSIcov": dict(sel_freq=[3.1, 7.7], order=8), "pLSCF": dict(sel_freq=[3.1, 7.7], order=4)}
+    for trial in range(ntr):
+        data = y.copy()
+        st = SingleSetup(data, fs)
+        ref = data.copy()
+        added, ran = {}, set()
+        ops = []
+        for step in range(int(rng.randint(2, 6))):
+            op = rng.choice(["add", "run", "run_all", "mpe", "run_missing", "mpe_unrun"])
+            kinds = list(mk)
+            if op == "add" or not added:
+                kind = kinds[int(rng.randint(len(kinds)))]
+                nm = f"{kind}{len(added)}"
+                a = mk[kind](nm)
+                st.add_algorithms(a)
+                added[nm] = (kind, a)
+                ops.append(f"add {nm}")
+                if a.data is not st.data or a.fs != st.fs:
+                    return {"reproduced": True, "detail": f"add_algorithms did not bind the setup's data/fs ({ops})"}
+                continue
+            nm = list(added)[int(rng.randint(len(added)))]
+            kind, a = added[nm]
+            before = {n: _c15_snapshot(x[1]) for n, x in added.items()}
+            ops.append(f"{op} {nm}")
+            try:
+                if op == "run":
+                    st.run_by_name(nm)
+                    ran.add(nm)
+                    if not _c15_equal(a.result.model_dump(), alone_result(kind)):
+                        return {"reproduced": True, "detail": f"result of {nm} differs from the same algorithm run alone on the same data ({ops})"}
+                    for n2, (k2, a2) in added.items():
+                        if n2 != nm and id(a2.result) != before[n2]["result_id"]:
+                            return {"reproduced": True, "detail": f"running {nm} replaced the result of {n2} ({ops})"}
+                elif op == "run_all":
+                    st.run_all()
+                    ran |= set(added)
+                    for n2, (k2, a2) in added.items():
+                        if not _c15_equal(a2.result.model_dump(), alone_result(k2)):
+                            return {"reproduced": True, "detail": f"run_all: result of {n2} differs from the same algorithm run alone ({ops})"}
+                elif op == "mpe":
+                    if nm in ran:
+                        kw = dict(mpe_args[kind])
+                        if "order" in kw:       # an order column that holds retained poles, and two of its poles as requests
+                            Fp = a.result.Fn_poles
+                            cols = [j for j in range(Fp.shape[1]) if np.sum(~np.isnan(Fp[:, j])) >= 2]
+                            if not cols:
+                                continue
+                            kw["order"] = int(cols[-1])
+                            kw["sel_freq"] = sorted(set(np.round(Fp[~np.isnan(Fp[:, cols[-1]]), cols[-1]], 6).tolist()))[:2]
+                        st.mpe(nm, **kw)
+                        for n2, (k2, a2) in added.items():
+                            if n2 != nm and not _c15_equal(_c15_snapshot(a2)["result"], before[n2]["result"]):
+                                return {"reproduced": True, "detail": f"mpe of {nm} changed the result of {n2} ({ops})"}
+                    else:
+                        try:
+                            st.mpe(nm, **mpe_args[kind])
+                            return {"reproduced": True, "detail": f"mpe of {nm} before any run did not raise ({ops})"}
+                        except Exception:
+                            if not _c15_equal(_c15_snapshot(a), before[nm]):
+                                return {"reproduced": True, "detail": f"mpe of {nm} before any run raised but stored something ({ops})"}
+                elif op == "run_missing":
+                    try:
+                        st.run_by_name("no such algorithm")
+                        return {"reproduced": True, "detail": "run_by_name of an unknown name did not raise"}
+                    except KeyError:
+                        pass
+                elif op == "mpe_unrun":
+                    b = mk[kind]("fresh")
+                    b._set_data(data=st.data, fs=st.fs)
+                    snap = _c15_snapshot(b)
+                    try:
+                        b.mpe(**mpe_args[kind])
+                        return {"reproduced": True, "detail": f"{kind}.mpe without a run did not raise"}
+                    except Exception:
+                        if not _c15_equal(_c15_snapshot(b), snap):
+                            return {"reproduced": True, "detail": f"{kind}.mpe without a run raised but stored something"}
+            except Exception as e:      # noqa: BLE001
+                return {"reproduced": True, "detail": f"unexpected {type(e).__name__}: {e} ({ops})"}
+            if not np.array_equal(st.data, ref) or st.data is not data:
+                return {"reproduced": True, "detail": f"the shared data array was modified ({ops})"}
+        # persistence
+        with tempfile.TemporaryDirectory() as d:
+            fn = os.path.join(d, "s.pkl")
+            save_to_file(st, fn)
+            st2 = load_from_file(fn)
+        for n, (k, a) in added.items():
+            b = st2.algorithms.get(n)
+            if b is None or not _c15_equal(_c15_snapshot(a)["rp"], _c15_snapshot(b)["rp"]) or not _c15_equal(_c15_snapshot(a)["result"], _c15_snapshot(b)["result"]):
+                return {"reproduced": True, "detail": f"save/load round trip changed {n} ({ops})"}
+    return {"reproduced": False, "detail": f"{ntr} random operation sequences: gates, isolation, determinism and the save/load round trip hold"}
+
+
+def c15_poser(inp):
+    from pyoma2.algorithms import FDD, SSIcov
+    from pyoma2.algorithms.data.result import FDDResult, SSIResult
+    from pyoma2.setup import MultiSetup_PoSER, SingleSetup
+    import itertools
+    rng = np.random.RandomState(int(inp.get("seed", 16)))
+    y = np.zeros((64, 3))
+    lists = [(), ("F",), ("S",), ("F", "S"), ("S", "F"), ("F", "F")]
+
+    def build(types, states):
+        st = SingleSetup(y.copy(), 10.0)
+        algs = []
+        for i, (t, s_) in enumerate(zip(types, states)):
+            a = FDD(name=f"a{i}", nxseg=16) if t == "F" else SSIcov(name=f"a{i}", br=2, ordmax=4)
+            if s_ >= 1:
+                a.result = (FDDResult if t == "F" else SSIResult)()
+            if s_ == 2:
+                a.result.Fn = np.array([1.0])
+            algs.append(a)
+        if algs:
+            st.add_algorithms(*algs)
+        else:
+            st.algorithms = {}
+        return st
+    cases = []
+    for n in range(0, 4):
+        for combo in itertools.product(lists, repeat=n):
+            cases.append(combo)
+    rng.shuffle(cases)
+    cases = cases[: int(inp.get("cases", 250))] + [(("F", "S"),) * 4, (("F", "S"), ("F", "S"), ("S", "F"), ("F", "S"))]
+    n_checked = 0
+    for combo in cases:
+        for variant in range(3):
+            states = [[2] * len(t) for t in combo]
+            if variant == 1 and any(len(t) for t in combo):
+                s_i = int(rng.randint(len(combo)))
+                if combo[s_i]:
+                    states[s_i][int(rng.randint(len(combo[s_i])))] = int(rng.randint(0, 2))
+            n_names = len(combo[0]) if combo else 0
+            if variant == 2:
+                n_names += int(rng.choice([-1, 1]))
+            n_names = max(n_names, 0)
+            setups = [build(t, s_) for t, s_ in zip(combo, states)]
+            valid = (len(combo) >= 2 and all(len(t) >= 1 for t in combo) and all(t == combo[0] for t in combo)
+                     and n_names == len(combo[0]) and all(x == 2 for s_ in states for x in s_))
+            n_checked += 1
+            try:
+                ms = MultiSetup_PoSER(ref_ind=[[0]] * max(len(combo), 1), single_setups=setups, names=[f"n{i}" for i in range(n_names)])
+                if not valid:
+                    return {"reproduced": True, "detail": f"PoSER accepted invalid inputs: class lists {combo}, states {states}, {n_names} names"}
+                if list(ms.setups) != setups:
+                    return {"reproduced": True, "detail": "PoSER did not keep the setups in order"}
+            except ValueError:
+                if valid:
+                    return {"reproduced": True, "detail": f"PoSER rejected valid inputs: class lists {combo}, {n_names} names"}
+            except Exception as e:      # noqa: BLE001
+                return {"reproduced": True, "detail": f"PoSER raised {type(e).__name__} (not ValueError): {e}; class lists {combo}, states {states}, {n_names} names"}
+    return {"reproduced": False, "detail": f"PoSER constructor agrees with the validity predicate on {n_checked} input assignments"}
+
+
+DRIVERS = {"c15_gating": c15_gating, "c15_poser": c15_poser, "c11_plscf_findmin": c11_plscf_findmin, "c11_mpe": c11_mpe, "c06_fdd": c06_fdd, "c20_plots": c20_plots, "c18_indicators": c18_indicators, "c13_sdest": c13_sdest, "c04_preger": c04_preger, "c03_split": c03_split, "c14_sequences": c14_sequences, "c16_dialog": c16_dialog, "c02_merge": c02_merge, "c09_run": c09_run, "c10_run": c10_run, "c10_fn": c10_fn}
 
 
 def main():
